@@ -188,6 +188,16 @@ func render(v ssa.Value, d int, onstack map[ssa.Value]bool) string {
 				}
 			}
 		}
+		// a captured variable the rule tables do not know (an expression hoisted
+		// into a new local in front of the closure): what the enclosing function
+		// stored in it, when that is a single value
+		if !FreeKnown(x.Parent(), x.Name()) {
+			if b := anyClosureBinding(x); b != nil {
+				if t := r(b); !strings.HasPrefix(t, "local:") && !strings.HasPrefix(t, "phi(") {
+					return t
+				}
+			}
+		}
 		return "free:" + CanonFree(x.Parent(), x.Name())
 	case *ssa.Const:
 		return constString(x)
@@ -685,6 +695,31 @@ func closureBinding(fv *ssa.FreeVar) ssa.Value {
 		return nil
 	}
 	for _, b := range outer.Blocks {
+		for _, in := range b.Instrs {
+			if mc, ok := in.(*ssa.MakeClosure); ok && mc.Fn == ssa.Value(cl) && idx < len(mc.Bindings) {
+				return mc.Bindings[idx]
+			}
+		}
+	}
+	return nil
+}
+
+// anyClosureBinding: the value bound to fv where its closure is created.
+func anyClosureBinding(fv *ssa.FreeVar) ssa.Value {
+	cl := fv.Parent()
+	if cl == nil || cl.Parent() == nil {
+		return nil
+	}
+	idx := -1
+	for i, f := range cl.FreeVars {
+		if f == fv {
+			idx = i
+		}
+	}
+	if idx < 0 {
+		return nil
+	}
+	for _, b := range cl.Parent().Blocks {
 		for _, in := range b.Instrs {
 			if mc, ok := in.(*ssa.MakeClosure); ok && mc.Fn == ssa.Value(cl) && idx < len(mc.Bindings) {
 				return mc.Bindings[idx]
